@@ -1,4 +1,4 @@
-#!/bin/sh
+#!/bin/bash
 # tools/mutants.sh [tier] -- runs every mutant in mutants/ against the check named by its file prefix (cNN_...)
 tier=${1:-quick}
 cd "$(dirname "$0")/.."
